@@ -99,7 +99,7 @@ theorem layout_wiring :
     Gen.reg_mgrid_expr = "result = np.concatenate(indices.T)" ∧ Gen.reg_list_expr = "result = indices" ∧
     Gen.mc_mgrid_expr = "indices = np.concatenate(indices.T)" ∧
     Gen.calc_coords_body = "coefficients = np.array((a, b)) ; return zero + np.dot(indices, coefficients)" ∧
-    Gen.get_indices_body = "coefficients = np.array((a, b)).T ; target = points - zero ; result = np.linalg.solve(coefficients, target.T).T ; return result" ∧
+    Gen.get_indices_body = "coefficients = np.array((a, b)).T ; if abs(np.linalg.det(coefficients)) <= 1e-12 * np.linalg.norm(a) * np.linalg.norm(b): raise np.linalg.LinAlgError('Lattice vectors a and b are parallel or zero') ; target = points - zero ; result = np.linalg.solve(coefficients, target.T).T ; return result" ∧
     Gen.frame_peaks_body = "indices = regularize_indices(indices) ; peaks = calc_coords(zero, a, b, indices) ; selector = within_frame(peaks, r, fy, fx) ; return (indices[selector], peaks[selector])" := by
   refine ⟨rfl, rfl, rfl, rfl, rfl, rfl⟩
 
